@@ -382,6 +382,27 @@ def directed_calls():
     for op in ("sort", "argsort"):
         for desc, shape in [("[a]", (4,)), ("a [b] c", (2, 3, 2)), ("a [b] c -> c [b] a", (2, 3, 2)), ("[a] b", (3, 2))]:
             yield {"op": op, "family": "preserve_shape", "desc": desc, "shapes": [shape], "kwargs": {}, "note": ["directed"]}
+    # reductions over an EMPTY set of axes (explicit output equal to the input, or an ellipsis of zero axes in the brackets):
+    # the elementary operation still runs on one element (var/std = 0, count_nonzero/any/all change dtype and values)
+    for op in gen.REDUCE:
+        yield {"op": op, "family": "reduce", "desc": "a b -> a b", "shapes": [(2, 3)], "kwargs": {}, "note": ["directed", "empty-reduction"]}
+        yield {"op": op, "family": "reduce", "desc": "a b -> b a", "shapes": [(2, 3)], "kwargs": {}, "note": ["directed", "empty-reduction"]}
+        yield {"op": op, "family": "reduce", "desc": "a [s...] b", "shapes": [(2, 3)], "kwargs": {}, "note": ["directed", "empty-reduction"]}
+        yield {"op": op, "family": "reduce", "desc": "(a [b]) c -> a c", "shapes": [(6, 2)], "kwargs": {"a": 2}, "note": ["directed", "length-one-after-split"]}
+        yield {"op": op, "family": "reduce", "desc": "a [b] c", "shapes": [(2, 1, 3)], "kwargs": {}, "note": ["directed", "length-one-reduction"]}
+    # dot: two and three batch axes in different relative orders in the operands and the output, contracted axes in
+    # different orders, three operands; on every backend that implements dot
+    for desc, shapes in [("a b c, b a c d -> a b d", [(2, 3, 4), (3, 2, 4, 5)]),
+                         ("b a e c, e c a b -> e a", [(3, 2, 4, 5), (4, 5, 2, 3)]),
+                         ("a b c, c b a -> b a", [(2, 3, 4), (4, 3, 2)]),
+                         ("a b c d, d c b e -> b a e", [(2, 3, 4, 5), (5, 4, 3, 2)]),
+                         ("a b [c], b a [c] -> b a", [(2, 3, 4), (3, 2, 4)]),
+                         ("a b [c d], [d c] b a e -> e b a", [(2, 3, 4, 5), (5, 4, 3, 2, 2)]),
+                         ("a 1 b c, b a c -> a b", [(2, 1, 3, 4), (3, 2, 4)]),
+                         ("a b, b c, c d -> a d", [(2, 3), (3, 4), (4, 5)]),
+                         ("b a, b c, a c d -> d b", [(3, 2), (3, 4), (2, 4, 5)])]:
+        for backend in (None, "numpy.numpylike", "numpy.einsum"):
+            yield {"op": "dot", "family": "dot", "desc": desc, "shapes": shapes, "kwargs": {}, "note": ["directed", "batch-order"], "backend": backend}
     for desc, shape in [("a e a d -> a d e", (2, 3, 2, 4)), ("b a c a -> a b c", (3, 2, 4, 2)), ("a b a c -> c b a", (2, 3, 2, 4)), ("a a b a -> b a", (2, 2, 3, 2))]:
         yield {"op": "id", "family": "id", "desc": desc, "shapes": [shape], "kwargs": {}, "note": ["directed", "diagonal"]}
     # every arrangement (up to renaming) of up to five axes over three names in which a name repeats: one, two and three
@@ -420,7 +441,7 @@ def run(ctx):
     directed = list(directed_calls())
     for call in directed:
         args = gen.make_args(call, rng, "rand")
-        for backend in (None, "numpy.numpylike"):
+        for backend in ((call["backend"],) if "backend" in call else (None, "numpy.numpylike")):
             st = check_call(ctx, call, backend, args)
             ctx.case(sig_of(call, backend), st in ("ok", "DIFF"))
             ctx.count("directed:" + st)
